@@ -67,8 +67,10 @@ type Obs struct {
 	// client writes
 	Class     string `json:"class,omitempty"` // ok | cond | uncertain | other  (RPC error classes: uncertain, other)
 	HeaderRev uint64 `json:"header_rev,omitempty"`
-	HasKv     bool   `json:"has_kv,omitempty"`
-	Kv        KVObs  `json:"kv,omitempty"`
+	Kv        *KVObs `json:"kv,omitempty"`
+	Unk       bool   `json:"unk,omitempty"`   // one of the request's commits was answered "outcome unknown"
+	Alloc     uint64 `json:"alloc,omitempty"` // revision the step allocated (driver's bookkeeping)
+	IsList    bool   `json:"is_list,omitempty"`
 	// retry iteration
 	Retry string `json:"retry,omitempty"` // idle | success | failed_get | failed_put | unknown_put | unnecessary | parked
 	// list
@@ -173,6 +175,8 @@ type Runner struct {
 	heldAt    uint64 // revision the sequencer is parked on (0 = none)
 	retryHeld uint64 // revision the parked repair write has allocated (0 = none)
 	expectEv  int
+	usedUnk   bool
+	failure   string
 }
 
 var keyNames = []string{"/r/ka", "/r/kb", "/r/kc", "/r/kd"}
@@ -312,6 +316,9 @@ func (r *Runner) before(kind string, key []byte) error {
 }
 
 func (r *Runner) envErr(e Env) (error, bool) {
+	if e.Kind == "unk" && lib.GoID() == r.driverGo {
+		r.usedUnk = true
+	}
 	switch e.Kind {
 	case "err":
 		return errInjected, false
@@ -395,140 +402,143 @@ func (r *Runner) list() (uint64, []KVObs, error) {
 	return resp.Header.Revision, out, nil
 }
 
-// Run executes the script. A tick-free segment that takes too long taints the run (the age test of
-// the retry loop could then disagree with the model's clock); the caller repeats tainted runs.
-func (r *Runner) Run(script []Step) Result {
-	t0 := time.Now()
-	res := Result{}
-	segStart := time.Now()
+// Exec executes one step and records what the implementation did.
+func (r *Runner) Exec(st Step) (o Obs) {
 	ctx := context.Background()
-	for _, st := range script {
-		o := Obs{}
+	switch st.Kind {
+	case "create", "update", "delete":
+		r.clientEnvs = append([]Env{}, st.Envs...)
+		r.usedUnk = false
+		r.clientGetErr = st.GetErr
+		r.holdNext = st.Hold
+		r.inWrite = true
+		key := []byte(keyNames[st.Key])
+		var err error
 		switch st.Kind {
-		case "create", "update", "delete":
-			r.clientEnvs = append([]Env{}, st.Envs...)
-			r.clientGetErr = st.GetErr
-			r.holdNext = st.Hold
-			r.inWrite = true
-			key := []byte(keyNames[st.Key])
-			var err error
-			switch st.Kind {
-			case "create":
-				var resp *proto.CreateResponse
-				resp, err = r.b.Create(ctx, &proto.CreateRequest{Key: key, Value: st.Val})
-				if err == nil {
-					o.HeaderRev = resp.Header.Revision
-					o.Class = "cond"
-					if resp.Succeeded {
-						o.Class = "ok"
-					}
-				}
-			case "update":
-				var resp *proto.UpdateResponse
-				resp, err = r.b.Update(ctx, &proto.UpdateRequest{Kv: &proto.KeyValue{Key: key, Value: st.Val, Revision: st.Rev}})
-				if err == nil {
-					o.HeaderRev = resp.Header.Revision
-					o.Class = "cond"
-					if resp.Succeeded {
-						o.Class = "ok"
-					}
-					if resp.Kv != nil {
-						o.HasKv = true
-						o.Kv = KVObs{Key: keyIndex(resp.Kv.Key), Val: append([]byte{}, resp.Kv.Value...), Rev: resp.Kv.Revision}
-					}
-				}
-			case "delete":
-				var resp *proto.DeleteResponse
-				resp, err = r.b.Delete(ctx, &proto.DeleteRequest{Key: key, Revision: st.Rev})
-				if err == nil {
-					o.HeaderRev = resp.Header.Revision
-					o.Class = "cond"
-					if resp.Succeeded {
-						o.Class = "ok"
-					}
-					if resp.Kv != nil {
-						o.HasKv = true
-						o.Kv = KVObs{Key: keyIndex(resp.Kv.Key), Val: append([]byte{}, resp.Kv.Value...), Rev: resp.Kv.Revision}
-					}
+		case "create":
+			var resp *proto.CreateResponse
+			resp, err = r.b.Create(ctx, &proto.CreateRequest{Key: key, Value: st.Val})
+			if err == nil {
+				o.HeaderRev = resp.Header.Revision
+				o.Class = "cond"
+				if resp.Succeeded {
+					o.Class = "ok"
 				}
 			}
-			r.inWrite = false
-			if err != nil {
-				o.Class = classify(err)
-			}
-			r.dealt++ // every client write allocates exactly one revision
-			if o.Class == "ok" {
-				r.expectEv++
-			}
-			if st.Hold && r.heldAt == 0 {
-				// the sequencer will park when it reaches this write's slot
-				r.heldAt = r.dealt
-			}
-			if r.heldAt != 0 && r.heldAt == r.dealt {
-				if !r.waitParked("seq", 2*time.Second) {
-					res.Failure = "sequencer did not reach the held unknown event"
+		case "update":
+			var resp *proto.UpdateResponse
+			resp, err = r.b.Update(ctx, &proto.UpdateRequest{Kv: &proto.KeyValue{Key: key, Value: st.Val, Revision: st.Rev}})
+			if err == nil {
+				o.HeaderRev = resp.Header.Revision
+				o.Class = "cond"
+				if resp.Succeeded {
+					o.Class = "ok"
+				}
+				if resp.Kv != nil {
+					o.Kv = &KVObs{Key: keyIndex(resp.Kv.Key), Val: append([]byte{}, resp.Kv.Value...), Rev: resp.Kv.Revision}
 				}
 			}
-		case "release":
-			if r.heldAt != 0 {
-				r.heldAt = 0
-				r.resume("seq")
+		case "delete":
+			var resp *proto.DeleteResponse
+			resp, err = r.b.Delete(ctx, &proto.DeleteRequest{Key: key, Revision: st.Rev})
+			if err == nil {
+				o.HeaderRev = resp.Header.Revision
+				o.Class = "cond"
+				if resp.Succeeded {
+					o.Class = "ok"
+				}
+				if resp.Kv != nil {
+					o.Kv = &KVObs{Key: keyIndex(resp.Kv.Key), Val: append([]byte{}, resp.Kv.Value...), Rev: resp.Kv.Revision}
+				}
 			}
-		case "tick":
-			time.Sleep(tickMs * time.Millisecond)
-			segStart = time.Now()
-		case "retry", "rget":
-			// exactly one call of asyncFifoRetryImpl.retry (rget: up to its BeginBatchWrite)
+		}
+		r.inWrite = false
+		r.clientGetErr = false
+		if err != nil {
+			o.Class = classify(err)
+		}
+		o.Unk = r.usedUnk
+		r.dealt++ // every client write allocates exactly one revision
+		o.Alloc = r.dealt
+		if o.Class == "ok" {
+			r.expectEv++
+		}
+		armed := st.Hold && !r.holdNext // the hold error was handed out
+		r.holdNext = false
+		if armed && o.Class == "uncertain" && r.heldAt == 0 {
+			// the sequencer parks when it classifies this write's event
+			r.heldAt = r.dealt
+			if r.retryHeld == 0 && !r.waitParked("seq", 3*time.Second) {
+				r.failure = "sequencer did not reach the held unknown event"
+			}
+		}
+	case "release":
+		if r.heldAt != 0 {
+			r.heldAt = 0
+			r.resume("seq")
+		}
+	case "tick":
+		time.Sleep(tickMs * time.Millisecond)
+	case "retry", "rget":
+		// exactly one call of asyncFifoRetryImpl.retry (rget: up to its BeginBatchWrite)
+		if r.retryHeld != 0 {
+			o.Retry = "idle"
+			r.failure = "script error: retry while a repair write is parked"
+			break
+		}
+		if len(st.Envs) > 0 {
+			e := st.Envs[0]
+			r.retryEnv = &e
+		}
+		r.retryGetErr = st.GetErr
+		r.splitRetry = st.Kind == "rget"
+		r.lastState = ""
+		r.resume("retry")
+		if !r.waitParked("retry", 3*time.Second) {
+			r.failure = "retry iteration did not come back"
+		}
+		r.retryFinished(&o, st.Kind == "rget", false)
+		r.retryEnv = nil
+		r.retryGetErr = false
+	case "rfinish":
+		if r.retryHeld != 0 {
 			if len(st.Envs) > 0 {
 				e := st.Envs[0]
 				r.retryEnv = &e
 			}
-			r.retryGetErr = st.GetErr
-			r.splitRetry = st.Kind == "rget"
 			r.lastState = ""
 			r.resume("retry")
 			if !r.waitParked("retry", 3*time.Second) {
-				res.Failure = "retry iteration did not come back"
+				r.failure = "retry iteration did not come back"
 			}
-			r.retryFinished(&o, st.Kind == "rget", false)
-		case "rfinish":
-			if r.retryHeld != 0 {
-				if len(st.Envs) > 0 {
-					e := st.Envs[0]
-					r.retryEnv = &e
-				}
-				r.lastState = ""
-				r.resume("retry")
-				if !r.waitParked("retry", 3*time.Second) {
-					res.Failure = "retry iteration did not come back"
-				}
-				r.retryHeld = 0
-				r.retryFinished(&o, false, true)
-			} else {
-				o.Retry = "idle"
-			}
-		case "compact":
-			resp, err := r.b.Compact(ctx, st.Rev)
-			o.Class = classify(err)
-			if resp != nil {
-				o.HeaderRev = resp.Header.Revision
-			}
-		case "list":
-			rev, l, err := r.list()
-			o.Class = classify(err)
-			o.HeaderRev = rev
-			o.List = l
+			r.retryHeld = 0
+			r.retryFinished(&o, false, true)
+			r.retryEnv = nil
+		} else {
+			o.Retry = "idle"
 		}
-		r.settle(&o)
-		res.Obs = append(res.Obs, o)
-		if st.Kind != "tick" && time.Since(segStart) > segmentLimitMs*time.Millisecond {
-			res.Tainted = true
+	case "compact":
+		resp, err := r.b.Compact(ctx, st.Rev)
+		o.Class = classify(err)
+		if resp != nil {
+			o.HeaderRev = resp.Header.Revision
 		}
-		if res.Failure != "" {
-			break
-		}
+	case "list":
+		rev, l, err := r.list()
+		o.Class = classify(err)
+		o.HeaderRev = rev
+		o.List = l
+		o.IsList = true
 	}
-	// collect the watch: the number of delivered events is known (acknowledged writes + successful repairs)
+	r.settle(&o)
+	if o.Stalled && r.failure == "" {
+		r.failure = fmt.Sprintf("stalled: committed revision %d did not reach %d", o.Committed, r.expectedCommitted())
+	}
+	return o
+}
+
+// Finish collects the watch: the number of delivered events is known (acknowledged writes + successful repairs).
+func (r *Runner) Finish() []EvObs {
 	lib.WaitUntil(2*time.Second, func() bool {
 		r.evMu.Lock()
 		defer r.evMu.Unlock()
@@ -536,8 +546,30 @@ func (r *Runner) Run(script []Step) Result {
 	})
 	time.Sleep(3 * time.Millisecond)
 	r.evMu.Lock()
-	res.Events = append([]EvObs{}, r.events...)
-	r.evMu.Unlock()
+	defer r.evMu.Unlock()
+	return append([]EvObs{}, r.events...)
+}
+
+// Run executes a fixed script. A tick-free segment that takes too long taints the run (the age test of
+// the retry loop could then disagree with the model's clock); the caller repeats tainted runs.
+func (r *Runner) Run(script []Step) Result {
+	t0 := time.Now()
+	res := Result{}
+	seg := time.Now()
+	for _, st := range script {
+		o := r.Exec(st)
+		res.Obs = append(res.Obs, o)
+		if st.Kind == "tick" {
+			seg = time.Now()
+		} else if time.Since(seg) > segmentLimitMs*time.Millisecond {
+			res.Tainted = true
+		}
+		if r.failure != "" {
+			break
+		}
+	}
+	res.Failure = r.failure
+	res.Events = r.Finish()
 	res.WallMs = time.Since(t0).Milliseconds()
 	return res
 }
